@@ -740,6 +740,8 @@ std::vector<double> GridWavelet::getCandidateConstructionPoints(double tolerance
 
     MultiIndexSet refine_candidates = getRefinementCanidates(tolerance, criteria, output, level_limits);
     MultiIndexSet new_points = (dynamic_values->initial_points.empty()) ? std::move(refine_candidates) : refine_candidates - dynamic_values->initial_points;
+    // a sample that has been delivered and waits for its parents is not requested again
+    if (!dynamic_values->data.empty()) new_points = new_points - dynamic_values->getWaitingPoints(num_dimensions);
 
     // compute the weights for the new_points points
     std::vector<double> norm = getNormalization();
